@@ -21,7 +21,7 @@ structure OpsLaws (O : Ops) (size threshold : Nat) (a : List Nat) : Prop where
   vecLen : (O.vecBytes a).length = verifVectorSize * (threshold + 1)
   vecRead : O.readVec threshold size (O.vecBytes a) = some (O.vecOfPoly size a)
   shareLen : ∀ i, (O.writeScalar (O.polyEval a i)).length = shareSize
-  shareRead : ∀ i, O.readScalar (O.writeScalar (O.polyEval a i)) = some (O.polyEval a i)
+  shareRead : ∀ i, O.polyEval a i ≠ 0 → O.readScalar (O.writeScalar (O.polyEval a i)) = some (O.polyEval a i)
   shareOk : ∀ i, i < size → O.checkLog (O.vecOfPoly size a) i (O.polyEval a (i + 1)) = true
 
 /-- the share loop keeps what it has output and adds the share message of every other participant it passes -/
@@ -98,9 +98,10 @@ def honestOf (size threshold : Nat) (a : List Nat) (L : OpsLaws O size threshold
 
 /-- **a receiver accepts what the honest dealer emits**: the dealer's broadcast and the private message addressed to
     `rcv` are classified, in every state of `rcv`'s instance, as the dealer's vector and `rcv`'s share, and both are
-    deliveries an honest dealer can cause (`AllowedK`) - the round-one content of `OwnNet` -/
+    deliveries an honest dealer can cause (`AllowedK`) - the round-one content of `OwnNet`. The receiver's share must not be zero (a zero share is refused by the
+    reader, as in the code: probability 2^-255 for an honest dealer) -/
 theorem emission_allowed (size threshold dealer rcv : Nat) (hne : rcv ≠ dealer) (hr : rcv < size) (a : List Nat)
-    (L : OpsLaws O size threshold a) (ct : Bool) (t : St O)
+    (L : OpsLaws O size threshold a) (hx : O.polyEval a (rcv + 1) ≠ 0) (ct : Bool) (t : St O)
     (ht : CfgCT (fresh O size threshold rcv dealer) ct t) :
     classify t (.bcast dealer (tagVerifVec :: O.vecBytes a)) = .vec (O.vecBytes a) ∧
     AllowedK (honestOf size threshold a L rcv hr) t (.vec (O.vecBytes a)) ∧
@@ -126,6 +127,6 @@ theorem emission_allowed (size threshold dealer rcv : Nat) (hne : rcv ≠ dealer
   · show parseShare O (tagShare :: O.writeScalar (O.polyEval a (rcv + 1))) = some (O.polyEval a (rcv + 1))
     unfold parseShare
     rw [if_neg (by simp), if_neg (by simp [L.shareLen])]
-    exact L.shareRead _
+    exact L.shareRead _ hx
 
 end Proofs.DkgAgree
